@@ -98,7 +98,13 @@ def gen_file(rng, want_empty=False):
     else:
         content = rand_bytes(rng, n)
         blk = rng.choice([None, None, 1, 2, 3, 7, 16, 64, 8192])
-    return {"content": content, "offset": off, "blksize": blk, "fileno": rng.random() < 0.6}
+    fs = {"content": content, "offset": off, "blksize": blk, "fileno": rng.random() < 0.6}
+    if fs["fileno"] and rng.random() < 0.3:
+        # the application read the beginning of the (buffered) file before positioning it
+        fs["sniff"] = rng.choice([1, 4, 4, 16])
+    if fs["fileno"] and rng.random() < 0.15:
+        fs["buffered"] = False
+    return fs
 
 
 def gen_wb_app(rng, rq):
@@ -115,8 +121,9 @@ def gen_wb_app(rng, rq):
     if use_file:
         fs = gen_file(rng, want_empty=nobody)
         data = L.file_content(fs["content"])[fs["offset"]:]
-        total = len(data)
-        writes = []
+        # write() calls before the file wrapper is returned
+        writes = gen_chunks(rng, empty_only=nobody)[:2] if rng.random() < 0.3 else []
+        total = len(data) + sum(len(c) for c in writes)
     else:
         writes = gen_chunks(rng, empty_only=nobody)
         total = sum(len(c) for c in writes)
@@ -206,7 +213,14 @@ def gen_case(rng, wild):
         if wild and rng.random() < 0.7:
             reqs.append({"req": rq, "app": gen_wild_app(rng, rq), "wb": False})
         else:
-            reqs.append({"req": rq, "app": gen_wb_app(rng, rq), "wb": True})
+            app = gen_wb_app(rng, rq)
+            if app["end"][0] == "done" and rng.random() < 0.06:
+                # a well-behaved application that fails at some point of its iteration
+                k = rng.randrange(1, len(app["acts"]) + 1)
+                app = {"acts": app["acts"][:k], "end": ["raise"], "split": rng.randrange(1, k + 1), "raise_in_call": rng.random() < 0.3}
+                reqs.append({"req": rq, "app": app, "wb": False, "wb_fail": True})
+                break
+            reqs.append({"req": rq, "app": app, "wb": True})
     reqs.append(sentinel())
     return {"worker": worker, "ws": gen_ws(rng), "date": pick(rng, DATES), "reqs": reqs}
 
@@ -259,10 +273,26 @@ def fixed_cases():
             app = {"acts": [["sr", "200 OK", [], False]],
                    "end": ["file", {"content": ["pat", 20000, 3], "offset": 5, "blksize": None, "fileno": fileno}]}
             cs.append(one(wk, req(), app))
+        # write() before a file wrapper with a declared length; file object read from before it is wrapped
+        for sf in (True, False):
+            w2 = dict(ws)
+            w2["sendfile"] = sf
+            for conn in ([], ["close"]):
+                app = {"acts": [["sr", "200 OK", [["Content-Length", "10"]], False], ["w", "hello"]],
+                       "end": ["file", {"content": "0123456789ABCDEFGHIJ", "offset": 0, "blksize": None, "fileno": True}]}
+                cs.append(one(wk, req(conn=conn), app, w2))
+                for cl in ([], [["Content-Length", "20"]], [["Content-Length", "7"]]):
+                    for off in (0, 3):
+                        app = {"acts": [["sr", "200 OK", [list(x) for x in cl], False]],
+                               "end": ["file", {"content": "0123456789ABCDEFGHIJKLM", "offset": off, "blksize": None, "fileno": True, "sniff": 4}]}
+                        if cl and int(cl[0][1]) > 23 - off:
+                            continue
+                        cs.append(one(wk, req(conn=conn), app, w2))
         # failure after the head / before the head
         for k in (0, 1, 2):
             app = {"acts": [["sr", "200 OK", [], False]] + [["w", "abc"]] * k, "end": ["raise"], "split": 1}
             cs.append(one(wk, req(), app, wb=False))
+            cs[-1]["reqs"][0]["wb_fail"] = True
         # second start_response
         a1 = ["sr", "200 OK", [["Content-Length", "3"], ["X-A", "1"]], False]
         a2 = ["sr", "500 Oops", [["Content-Length", "5"], ["X-B", "2"]], True]
@@ -391,7 +421,7 @@ def judge_failed_response(case, outs):
     if not all(case["reqs"][j].get("wb") for j in range(i)):
         return fails
     o = outs[i]
-    if o["ended"][0] != 1 or r["app"]["end"][0] != "raise" or effective_call(r["app"]) is None:
+    if not r.get("wb_fail") or o["ended"][0] != 1:
         return fails
     try:
         exp = expected_of(r["req"], r["app"])
